@@ -67,7 +67,14 @@ def const_rules(facts, rep):
         from engine.intervals import Intervals
         summ = const_return_summaries(facts)
         spans = [slice_span(x) for x in (ck, hk, vr)]
-        good = all(sp is not None for sp in spans) and show(v0) in ("vec::from_elem(0, 2)", "[0; 2]")
+        # the stored verifier: a zero-initialised 2-byte buffer (Vec or array, compared whole or through [..]) filled from the stream
+        sp0 = slice_span(v0)
+        v0ok = False
+        if sp0 is not None:
+            iv0 = Intervals(summ)
+            v0ok = iv0.range_of(sp0[1], "usize") == (0, 0) and iv0.range_of(sp0[2], "usize") == (2, 2) and \
+                (sp0[0][0] == "repeat" or (sp0[0][0] == "call" and sp0[0][1].endswith("from_elem")))
+        good = all(sp is not None for sp in spans) and (v0ok or show(v0) in ("vec::from_elem(0, 2)", "[0; 2]"))
         if good:
             buf = norm(ex.operand(pb[0][1]["args"][3], (pb[0][0], None))) if pb else None
             good = all(sp[0] == buf or canon(sp[0]) == canon(buf) for sp in spans)
